@@ -91,6 +91,19 @@ fn quick_points(declared: &[u32]) -> Vec<(u64, u64)> {
         pts.insert(d | (1 << 16));
         pts.insert(d | (1 << 31));
         pts.insert(d.wrapping_add(1 << 16));
+        // bit patterns around a declared value: every single higher bit set, the top byte set, shifted into the high
+        // half, byte-swapped, alternating bits on top, complemented
+        for k in 16..32 {
+            pts.insert(d | (1 << k));
+            pts.insert(d ^ (1 << k));
+        }
+        pts.insert(d | 0xFF00_0000);
+        pts.insert(d.wrapping_shl(16));
+        pts.insert(d.swap_bytes());
+        pts.insert(d ^ 0xAAAA_AAAA);
+        pts.insert(d ^ 0x5555_5555);
+        pts.insert(d | 0xAAAA_0000);
+        pts.insert(!d);
     }
     for k in 0..32 {
         let p = 1u32 << k;
